@@ -309,6 +309,12 @@ func phasesDecide(cases []*Case) ([]Finding, map[string]int) {
 			stats["cases:skipped-idless-key-collision"]++
 			continue
 		}
+		if sharedParamTwins(get(c.In, "bundle", "root"), false) {
+			// known finding D18: one key named once per operation with names equal up to case — the aliasing between the two
+			// definitions created from one schema is not something the model claims to follow
+			stats["cases:skipped-shared-param-name-twins"]++
+			continue
+		}
 		pc := &phasesCase{c: c, ext: newExtTables()}
 		if aux := auxOf(get(c.In, "bundle", "aux")); len(aux) > 0 {
 			if dir, err := writeBundle(get(c.In, "bundle", "root"), aux, nil); err == nil {
